@@ -146,6 +146,16 @@ std::vector<bytes> hmac_seq(const std::vector<HmacCall> &calls, int refill_units
 void aes_encrypt_block(const uint8_t key[16], uint8_t block[16], int off = 0);
 void aes_decrypt_block(const uint8_t key[16], uint8_t block[16], int off = 0);
 const char *canary_report();
+// handle lifetimes: a script over `nslots` handle slots. op 0: (re)construct slot a with `key` in place (the storage of
+// a live handle is reused, as in a pool); 1: slot a = copy-constructed from slot b (on the heap); 2: slot a = slot b
+// (assignment); 3: destroy slot a; 4: run slot a on `block` (result appended to the returned list).
+// Copies / assignments are skipped (returns false through *copyable) when the class does not allow them.
+struct AesHOp
+{
+  int op, a, b;
+  bytes key, block;
+};
+std::vector<bytes> aes_handles(bool enc, int nslots, const std::vector<AesHOp> &ops, bool *copyable);
 const uint8_t *tab_sbox();
 const uint8_t *tab_rsbox();
 const uint8_t *tab_log();
